@@ -60,16 +60,7 @@ func runC06(c *Ctx) {
 	c.Min("C06.K1", 2)
 
 	// ---- G1 IsValidModelMultihash
-	codePath := "hashing.GetMultihashCode($1)#0"
-	c.CheckGuard("C06.G1", "IsValidModelMultihash:code-from-supplied-hash", ivm, nil, callTo("GetMultihashCode(modelMultihash)", gmc, pathIs("$1")))
-	recomputed := func(s string) bool {
-		return s == "hashing.CalculateModelMultihash($0,conv<uint>("+codePath+"))#0"
-	}
-	c.CheckGuard("C06.G1", "IsValidModelMultihash:recompute", ivm, nil, &GCheck{Name: "CalculateModelMultihash(model, code of supplied hash)", MatchCall: func(c *Ctx, call *ssa.Call, env Env) bool {
-		return call.Call.StaticCallee() == cmm && recomputed(c.Path(call, env)+"#0")
-	}})
-	c.CheckGuard("C06.G1", "IsValidModelMultihash:compare-and-reject", ivm, nil, cmpReject("computed != supplied rejected", token.NEQ, recomputed, pathIs("$1")))
-	c.Min("C06.G1", 3)
+	c.isValidModelMultihashContract("C06.G1")
 
 	// ---- U1 IsComputedUsingMultihashAlgorithms
 	c.CheckGuard("C06.U1", "IsComputedUsing:decode-ok", icu, nil, callTo("GetMultihashCode(encoded)", gmc, pathIs("$0")))
@@ -202,7 +193,8 @@ func runC03(c *Ctx) {
 		c.Check("C03.G1", "Parse:non-batch", ok, parse.Pos(), "Parse delegates to ParseOperation(namespace, buffer, false)")
 	}
 	c.checkParseDispatch("C03.G1")
-	c.Min("C03.G1", 3)
+	c.isValidModelMultihashContract("C03.G1")
+	c.Min("C03.G1", 7)
 	c.hashLeafContracts("C04.K1")
 	c.Assume("collision resistance of SHA-2; Transform implements RFC 8785 (C05 decides only its constants)")
 }
@@ -308,4 +300,28 @@ func (c *Ctx) checkParseDispatch(rule string) {
 		}
 	}
 	c.Check(rule, "ParseOperation:unknown-type-rejected", okDef, po.Pos(), "a type outside the four constants cannot reach a success return")
+}
+
+// isValidModelMultihashContract: the hash validator recomputes with the code decoded from the supplied hash
+// over the supplied model and accepts only on the false edge of computed != supplied (string comparison of
+// the canonical encodings). Shared by the properties that rely on "X hashes to H" (C02, C03, C06).
+func (c *Ctx) isValidModelMultihashContract(rule string) {
+	cmm := c.Fn("hashing", "CalculateModelMultihash")
+	ivm := c.Fn("hashing", "IsValidModelMultihash")
+	gmc := c.Fn("hashing", "GetMultihashCode")
+	if cmm == nil || ivm == nil || gmc == nil {
+		c.Unresolved(rule, "hashing.IsValidModelMultihash / CalculateModelMultihash / GetMultihashCode")
+		return
+	}
+	codePath := "hashing.GetMultihashCode($1)#0"
+	c.CheckGuard(rule, "IsValidModelMultihash:code-from-supplied-hash", ivm, nil, callTo("GetMultihashCode(modelMultihash)", gmc, pathIs("$1")))
+	recomputed := func(s string) bool {
+		return s == "hashing.CalculateModelMultihash($0,conv<uint>("+codePath+"))#0"
+	}
+	c.CheckGuard(rule, "IsValidModelMultihash:recompute", ivm, nil, &GCheck{Name: "CalculateModelMultihash(model, code of supplied hash)", MatchCall: func(c *Ctx, call *ssa.Call, env Env) bool {
+		return call.Call.StaticCallee() == cmm && recomputed(c.Path(call, env)+"#0")
+	}})
+	c.CheckGuard(rule, "IsValidModelMultihash:compare-and-reject", ivm, nil, cmpReject("computed != supplied rejected", token.NEQ, recomputed, pathIs("$1")))
+	t := normalize(c.SuccessTerm(cmm, 0, nil)).String()
+	c.Check(rule, "CalculateModelMultihash:term", t == "b64(mhEnc(H($1,JCS($0)),$1))", cmm.Pos(), "CalculateModelMultihash(v,a) = "+t)
 }
